@@ -7,6 +7,7 @@ import (
 	"go/constant"
 	"go/token"
 	"go/types"
+	"regexp"
 	"sort"
 	"strings"
 
@@ -90,6 +91,7 @@ type FuncEnc struct {
 	pass   int
 	seqLen map[string]string // spec-level sequences: element-array term -> length term
 	sentinelVals []string
+	linked map[string]bool
 }
 
 type CallSite struct {
@@ -207,7 +209,11 @@ func (fe *FuncEnc) assumeTypeInv(n string, t types.Type) {
 	if t == nil {
 		return
 	}
-	switch t.Underlying().(type) {
+	switch u := t.Underlying().(type) {
+	case *types.Array:
+		if isByteArray(t) {
+			fe.assume(fmt.Sprintf("(= (str.len %s) %d)", n, u.Len()))
+		}
 	case *types.Slice:
 		fe.assume(fmt.Sprintf("(and (<= 0 (s_off %s)) (<= 0 (s_len %s)) (<= (s_len %s) (s_cap %s)) (=> (= (s_base %s) 0) (= (s_cap %s) 0)))", n, n, n, n, n, n))
 	}
@@ -565,6 +571,34 @@ func (fr *Frame) addrOf(v ssa.Value) *Addr {
 	return &Addr{kind: aRef, ref: fr.val(v).S, T: pt.Elem()}
 }
 
+var boundVarRe = regexp.MustCompile(`\bq_?[A-Za-z0-9_]*\b`)
+
+func hasBoundVar(s string) bool {
+	for _, m := range boundVarRe.FindAllString(s, -1) {
+		if strings.HasPrefix(m, "q_") || m == "qi" {
+			return true
+		}
+	}
+	return false
+}
+
+// elemRead: element i of slice s (non-byte element type) in the heap version hv. Reads go through the
+// uninterpreted function at_<sort> so that quantified facts about elements have matchable patterns; every ground
+// read is linked to the array model by an equation.
+func (fe *FuncEnc) elemRead(hv string, hsort Sort, s, idx string, es Sort) string {
+	fn := "at_" + mangle(string(es))
+	fe.pre.decl(fmt.Sprintf("(declare-fun %s (%s Slice Int) %s)", fn, hsort, es))
+	t := fmt.Sprintf("(%s %s %s %s)", fn, hv, s, idx)
+	if !hasBoundVar(t) {
+		link := fmt.Sprintf("(= %s (select (select %s (s_base %s)) (+ (s_off %s) %s)))", t, hv, s, s, idx)
+		if !fe.linked[link] {
+			fe.linked[link] = true
+			fe.assume(link)
+		}
+	}
+	return t
+}
+
 func (fe *FuncEnc) loadAddr(st *State, a *Addr) string {
 	switch a.kind {
 	case aField:
@@ -588,6 +622,9 @@ func (fe *FuncEnc) loadAddr(st *State, a *Addr) string {
 		}
 		if isB {
 			return fmt.Sprintf("(str.to_code (str.at (select %s %s) %s))", fe.hget(st, h), base, idx)
+		}
+		if a.slice != "" {
+			return fe.elemRead(fe.hget(st, h), fe.heapSorts[h], a.slice, a.idx, fe.sorts.SortOf(a.T))
 		}
 		return fmt.Sprintf("(select (select %s %s) %s)", fe.hget(st, h), base, idx)
 	}
